@@ -230,13 +230,25 @@ def r10_3(ctx, rc):
     prog = ctx.prog
     nested = R.nested_runner()
     # what the callback receives
-    F = R.builder_f('_rebuild_file')
-    calls = [c for c in prog.calls_in(F)
-             for g in prog.resolve_call(c, F)
+    # ... called from the build_file procedure or one of its private helpers
+    root = R.builder_f('_build_file')
+    closure = [root]
+    todo = [root]
+    while todo:
+        f0 = todo.pop()
+        for c0 in prog.calls_in(f0):
+            for g in prog.resolve_call(c0, f0):
+                if isinstance(g, Func) and g.cls == R.builder and \
+                        not g.is_public and not g.is_ctor_call and \
+                        g not in closure and g != nested:
+                    closure.append(g)
+                    todo.append(g)
+    calls = [(f0, c) for f0 in closure for c in prog.calls_in(f0)
+             for g in prog.resolve_call(c, f0)
              if isinstance(g, Func) and g.qualname == nested.qualname]
     if not calls:
         raise AnalysisError('call of the nested runner not found')
-    c = calls[0]
+    F, c = calls[0]
     b = prog.bind_args(c, nested)
     # the parameter that is star-expanded into the USER call
     ucall = [u for f, u in R.user_sites if f == nested][0]
